@@ -14,6 +14,7 @@ import (
 type histoPair struct {
 	key string
 	val int64
+	set bool
 }
 
 type HistoWriter struct {
@@ -67,6 +68,7 @@ func (s *HistoWriter) WriteForLine(line int, key string, val int64) {
 	s.items[line] = histoPair{
 		key: key,
 		val: val,
+		set: true,
 	}
 
 	if needsFullRefresh {
@@ -87,6 +89,12 @@ func (s *HistoWriter) UpdateTotal(total int64) {
 func (s *HistoWriter) fullRender() {
 	for idx, item := range s.items {
 		if item.val > 0 {
+			s.writeLine(idx, item.key, item.val)
+		}
+	}
+	// lines written with a value <= 0 are in use too: their number and padding follow the new maximum and key width
+	for idx, item := range s.items {
+		if item.set && item.val <= 0 {
 			s.writeLine(idx, item.key, item.val)
 		}
 	}
